@@ -610,6 +610,10 @@ def build(case, which, opts=None):
     if fam == 'plist':
         from graphtage.plist import PLISTNode
         return PLISTNode(gjson.build_tree(doc, opts))
+    if fam == 'plistjson':
+        # two file types on the two sides: a property list compared with a plain JSON tree
+        from graphtage.plist import PLISTNode
+        return PLISTNode(gjson.build_tree(doc, opts)) if which == 'a' else gjson.build_tree(doc, opts)
     raise ValueError(fam)
 
 
@@ -660,7 +664,7 @@ def valid_case(case):
             except Exception:
                 return False
         return ok(a) and ok(b)
-    if fam == 'plist':
+    if fam in ('plist', 'plistjson'):
         def ok(d):
             if d is None:
                 return False
